@@ -297,10 +297,10 @@ EXTRA_TEXT = {
     "C03": " Also: no subtraction in the builder can wrap, a started label has content, labels are appended atomically (C03.bld); in-place truncation only at label boundaries (C03.cut); both escape readers accept exactly the printable non-digits (C06.sym). Also: validated name types are built directly (struct literal) only inside an unsafe fn, from a validated value or behind a validator, and every *_unchecked constructor is an unsafe fn (C03.raw); the zone-file reader never continues past an empty label (C06.empty). Thorough tier additionally builds compile-fail witnesses (unsafe constructors, no mutable access to a name's octets). Also (round 10): the validator relied on before an unchecked wrap bounds the length (C03.forge). Also (round 13): one append per new label (C03.bld); finish / into_name / append_origin end the open label (C03.endl); a root label anywhere in a relative name is refused (C03.bounds). Also (round 16): append_name's per-label loop is counted as name.compose_len() and its guard must imply len + C <= 254 (C03.bld).",
     "C07": " Also: no overlong UTF-8 (C07.utf8); token-ending characters == categoriser's special octets (C07.wordset); `@` in record data (C07.at); a line feed inside a group is white space; every stated class is remembered (C07.inherit); converter finished once (C18.split) and guarded after end-of-data (C18.state). Also: every token consumer checks require_token (C07.token); next_item is only reached with the token read to its end (typestate, C07.drain); the cursor never moves past a symbol found not to be a word character (C07.delim); running length check in scan_name rejects from 255 (C07.len); the closing quote is not part of a value (C07.quote); no unchecked narrow arithmetic in scan functions (C07.ovf); the fast path passes only octets the slow path accepts (C07.fast). Also (round 13): the item reader advances one octet at a time (C07.step); convert_label's no-copy guard is an equality (C07.nocopy). Also (round 16): scan_string steps back over the closing quote only when the quoted token has ended (C07.stepback); line_start is recorded after start moved over the line feed (C07.linestart).",
     "C08": " Also: remove_all always removes RRsets, marker and children (C08.wipe); only unmarked / NXDOMAIN-marked nodes have their marker recomputed (C08.mark); a deletion keeps the RRset's TTL (C10.ttl). Also: NXDOMAIN-marked nodes are descended through on the way down (C08.below, corrected table); QTYPE ANY chooses among the RRsets present at the reader's version (C08.any); Answer::to_message writes SOA, NS and DS independently (C08.auth); NodeRrsets::is_empty is 'no RRset present at the version' (C08.nx). Also (round 13): an empty RRset removes the type (C08.emptyset); the in-zone test compares labels (C08.inzone); Versioned::get searches all entries, open() always marks dirty (C09.ver, C09.drop). Also (round 16): every NS record of a zone cut has its glue collected (C08.glueall).",
-    "C09": " Also: every write-locking node-storage function is told its version (C09.shared, one known finding: node existence); version provenance over WriteZone's methods too (C09.wr). Also: a WriteNode's version follows the writer's (C09.stale, one known finding); nothing touches the update-lock guard field after construction (C09.lock); container rollback/remove_all leave no element out (C09.rbk); C08.any. Thorough tier additionally builds a compile-fail witness (a reader cannot open the zone for writing). Also (round 13): Versioned::get compares the version inside a search over all entries (C09.ver); open() marks dirty unconditionally (C09.drop); a walk descends through every non-cut node (C10.walk).",
-    "C11": " Also: Other Data is refused unless empty or a 6-octet time (C11.vars). Also: no unwrap of message-derived results in the TSIG module (C11.panic); CLASS/TTL of the TSIG record are checked because the digest feeds constants (C11.vars); Algorithm::from_name accepts exactly one label plus root, case-insensitively (C11.alg); the request MAC is fed into the context before any later use (C11.prime); Time48 wire layout (C11.time48). Also (round 13): other_time() depends on the length only (C11.other); `first` cleared only after MAC and time check succeeded (C11.first); first_answer replaces the context (C11.reset).",
-    "C13": " Also: grouping iterators use the sort's notion of equal owners (C13.group); no iteration of the NSEC3 linking loop skips set_next_owner (C13.close). Also: every successful return of the generators has passed the step that closes / sorts-and-links the chain (C13.close); the empty-non-terminal walk has no early exit (C13.ent); the case folding of the name order (C04.fold). Also (round 13): NSEC3PARAM bit unconditional at the apex (C13.types); window / octet / bit of a type number by source-bit tracking (C13.split). Also (round 14): reading the remembered cut does not consume it (C13.cut).",
-    "C16": " Also: 512 without EDNS and the carried-over OPT must fit (C16.size / C16.trunc); the idle-timeout guard is written (C16.idle); the read future is recreated only after delivering a request (C16.recv); cloned requests share the size hint (C16.hint); a response is never dropped for a full queue (C16.once, one known finding). Also: on the UDP arm every Continue return has stored the negotiated size (C16.size); error exits of a started stream write never flush the queue (C16.partial); the accept loop ends only for a failed server command (C16.accept). Also (round 13): the in-transaction guard is captured by the spawned task (C16.idle); the UDP size limit is loaded per datagram (C16.size); the connection count is raised where its decrement is armed (C16.accept).",
+    "C09": " Also: every write-locking node-storage function is told its version (C09.shared, one known finding: node existence); version provenance over WriteZone's methods too (C09.wr). Also: a WriteNode's version follows the writer's (C09.stale, one known finding); nothing touches the update-lock guard field after construction (C09.lock); container rollback/remove_all leave no element out (C09.rbk); C08.any. Thorough tier additionally builds a compile-fail witness (a reader cannot open the zone for writing). Also (round 13): Versioned::get compares the version inside a search over all entries (C09.ver); open() marks dirty unconditionally (C09.drop); a walk descends through every non-cut node (C10.walk). Also (round 17): update_rrset answers Ok only after storing the RRset in the version being written (C09.stored).",
+    "C11": " Also: Other Data is refused unless empty or a 6-octet time (C11.vars). Also: no unwrap of message-derived results in the TSIG module (C11.panic); CLASS/TTL of the TSIG record are checked because the digest feeds constants (C11.vars); Algorithm::from_name accepts exactly one label plus root, case-insensitively (C11.alg); the request MAC is fed into the context before any later use (C11.prime); Time48 wire layout (C11.time48). Also (round 13): other_time() depends on the length only (C11.other); `first` cleared only after MAC and time check succeeded (C11.first); first_answer replaces the context (C11.reset). Also (round 17): an answer's time is checked only behind a matching MAC (C11.macfirst); remove_tsig restores the ID in the message itself (C11.restoreid).",
+    "C13": " Also: grouping iterators use the sort's notion of equal owners (C13.group); no iteration of the NSEC3 linking loop skips set_next_owner (C13.close). Also: every successful return of the generators has passed the step that closes / sorts-and-links the chain (C13.close); the empty-non-terminal walk has no early exit (C13.ent); the case folding of the name order (C04.fold). Also (round 13): NSEC3PARAM bit unconditional at the apex (C13.types); window / octet / bit of a type number by source-bit tracking (C13.split). Also (round 14): reading the remembered cut does not consume it (C13.cut). Also (round 17): the NSEC3 bitmap of a secure delegation has RRSIG, that of an insecure one has not (C13.dsrrsig).",
+    "C16": " Also: 512 without EDNS and the carried-over OPT must fit (C16.size / C16.trunc); the idle-timeout guard is written (C16.idle); the read future is recreated only after delivering a request (C16.recv); cloned requests share the size hint (C16.hint); a response is never dropped for a full queue (C16.once, one known finding). Also: on the UDP arm every Continue return has stored the negotiated size (C16.size); error exits of a started stream write never flush the queue (C16.partial); the accept loop ends only for a failed server command (C16.accept). Also (round 13): the in-transaction guard is captured by the spawned task (C16.idle); the UDP size limit is loaded per datagram (C16.size); the connection count is raised where its decrement is armed (C16.accept). Also (round 17): the 512-octet limit is decided from the request's OPT (C16.reqopt).",
     "C04": " Also: mixed-variant arms of the record-data enums never answer Equal (C04.mixed, two known findings on canonical_cmp). Also: hand-written comparisons of enums have a like-with-like arm for every variant (C04.refl); no panic macro in Eq/Ord/Hash/CanonicalOrd impls (C04.total); partial_cmp uses the comparators of cmp (C04.po); a hand-written == looks at every field (C04.ident); Label::composed_cmp does not fold case (C04.fold); nested name-bearing types in canonical_cmp (C04.canon). Also (rounds 10-11): a hand-written octet folder used by an Eq/Ord/Hash impl is evaluated over all 256 octets and must equal u8::to_ascii_lowercase (C04.fold, now covering CharStr); zip().all() never decides equality of label sequences (C02.seqeq); the new codec's flat Name orders by length only for a label-aligned suffix (C19.lsuffix). Also (round 14): length-prefixed fields are compared length first in canonical_cmp (C04.lenfirst).",
     "C05": " Also: incremental builders bound what they append and roll back on failure (C05.push, one known finding); ClientSubnet host-bit guard equals the mask effect over all octets x prefix lengths (C05.mask); per-variant length of IpseckeyGateway (C05.varlen); unchecked-constructor audit of Nsec3Salt / OwnerHash / CaaTag (C05.forge). Also (rounds 10-11): the validator a *_unchecked wrap relies on bounds the length itself (C05.forge); every conversion between octets / name types maps field to same-named field (C05.conv); type-bitmap windows of exactly 1..=32 octets (C01.window); Time48 wire layout (C11.time48). Also (round 14): TxtBuilder's room is 256 + start - len (C05.txtroom); an option part's compose_len measures the field compose writes (C05.optlen); canonical lower-casing equals to_ascii_lowercase (C04.fold).",
     "C06": " Also: SvcParam values are written with the registered key mnemonic and the reader's key alphabet is a-z 0-9 '-' (C06.svckey, one known finding); Symbol::from_octet / quoted_from_octet leave unescaped only what the reader takes as plain (C06.sym); shares C03.esc (incl. directive openers), C07.cat/.paren and C18.tail. Also (round 10): the bitmap iterator tests every position it reaches (C06.bititer); Base16/32/64 alphabets (C18.tab). Also (round 14): both loops of convert_charstr admit 255 octets (C06.charstr255); integer readers overflow only beyond MAX (C07.ovf).",
